@@ -47,17 +47,23 @@ def encRes : Res → Sx
   | .valueError => .sym "valueError"
   | .notAlias => .sym "notAlias"
 
+/-- `expand_path` on tokens, as a finite table (identity elsewhere) -/
+def mkExp (tbl : List (Nat × Nat)) : Tok → Tok := fun t => (tbl.lookup t).getD t
+def decExp : Sx → Option (List (Nat × Nat)) := asListOf (fun
+  | .list [a, b] => do pure (← asNat a, ← asNat b)
+  | _ => none)
+
 def handle (op : String) (args : List Sx) : Option Sx :=
   match op, args with
-  | "c15.get", [tbl, rets, key, a] => do
+  | "c15.get", [tbl, rets, ex, key, a] => do
     let tbl ← asListOf decEntry tbl
     let orc := mkOracle (← asListOf decRet rets)
-    let (r, decs, seen) := Alias.get tbl orc (← asNat key) (← asListOf asNat a)
+    let (r, decs, seen) := Alias.get tbl orc (mkExp (← decExp ex)) (← asNat key) (← asListOf asNat a)
     pure (.list [encRes r, ofListWith ofNat decs, ofListWith ofNat seen])
-  | "c15.resolve", [tbl, rets, cmd] => do
+  | "c15.resolve", [tbl, rets, ex, cmd] => do
     let tbl ← asListOf decEntry tbl
     let orc := mkOracle (← asListOf decRet rets)
-    let s := specResolve tbl orc (← asListOf asNat cmd)
+    let s := specResolve tbl orc (mkExp (← decExp ex)) (← asListOf asNat cmd)
     pure (.list [ofListWith ofNat s.cmd, encRes s.alias, ofListWith ofNat s.decorators])
   | _, _ => none
 
